@@ -77,6 +77,20 @@ func init() {
 		// vesting and signature entry points never mint or burn; every call respects the declared effect sets
 		return []*FuncReport{runEffectCheck(p, "supply", map[string]bool{EffMint: true, EffBurn: true}, vestSig)}
 	}
+	extraChecks["C17"] = func(p *Program, tier string) []*FuncReport {
+		// lineage records are written only by the operations the property names (pool send, split, the two moves), by genesis
+		// import and by the v1.2.0 upgrade: every other entry point is proved trace-write free, call by call
+		allowed := []string{"msgServer.SendToVestingAccount", "msgServer.SplitVesting", "msgServer.MoveAvailableVesting", "msgServer.MoveAvailableVestingByDenoms",
+			"cfevesting.InitGenesis", "AppModule.InitGenesis", "v120.CreateUpgradeHandler", "v120.UpdateVestingAccountTraces", "msgServer.splitVestingCoins"}
+		return []*FuncReport{runEffectCheck(p, "lineage-writers", map[string]bool{"trace.write": true}, custom, func(key string) bool {
+			for _, a := range allowed {
+				if strings.HasSuffix(key, a) {
+					return true
+				}
+			}
+			return false
+		})}
+	}
 	extraChecks["C13"] = func(p *Program, tier string) []*FuncReport { return []*FuncReport{runParamsWriterCheck(p)} }
 	extraChecks["C11"] = func(p *Program, tier string) []*FuncReport {
 		return []*FuncReport{runEffectCheck(p, "determinism", map[string]bool{EffTime: true, EffRand: true, EffMapRange: true, EffGo: true, EffGlobalW: true}, custom)}
